@@ -32,7 +32,7 @@ def run(prop, tier, seed, nontrivial_feats, rule, extra=None):
         v.sample(s)
     nt = sum(1 for fails, cnt in out['results'] if any(cnt.get('feat_' + f) for f in nontrivial_feats) or cnt.get('nontrivial'))
     if out['n'] == 0 or nt == 0:
-        raise MachineryError('vacuous run')
+        v.vacuous('vacuous run')
     cov = dict(
         states=sum(r['states'] for r in out['runs']), transitions=sum(r['transitions'] for r in out['runs']),
         traces_validated_against_impl=out['n'],
